@@ -35,6 +35,24 @@ def run(ctx):
     agg_by_json = {a['json']: a['id'] for a in by['agg']}
     wss = by['ws']
 
+    # the aggregate rules of the bundle, from the source tree: the harness must exercise all of them
+    bundled = set()
+    rroot = os.path.join(vlib.REPO, 'bundle', 'regal', 'rules')
+    for cat in sorted(os.listdir(rroot)):
+        cdir = os.path.join(rroot, cat)
+        if not os.path.isdir(cdir):
+            continue
+        for title in sorted(os.listdir(cdir)):
+            tdir = os.path.join(cdir, title)
+            if not os.path.isdir(tdir):
+                continue
+            for fn in os.listdir(tdir):
+                if fn.endswith('.rego') and not fn.endswith('_test.rego'):
+                    if re.search(r'^aggregate_report\b', open(os.path.join(tdir, fn)).read(), re.M):
+                        bundled.add('%s/%s' % (cat, title))
+    exercised = set(wss[0]['brules']) if wss else set()
+    rules_out_of_date = sorted(bundled ^ exercised) if not replaying else []
+
     # ---- the language server's cache and incremental path (overlay test inside /repo/internal/lsp)
     ov = []
     if not replaying:
@@ -162,7 +180,16 @@ def run(ctx):
             nm = '%s%d' % (tag, wi)
             body.append('Definition %s := Eval vm_compute in failing (%s W%d) 0 %s%d.' % (nm, fn, wi, lst, wi))
             checks.append((nm, tag, wi, lst))
-    body.append(' '.join('Print %s.' % c[0] for c in checks))
+    # self-test of the glue: a perturbed observation must be flagged (not a verdict about /repo)
+    selftest = []
+    for wi, w in enumerate(wss):
+        pr = next((r for r in per_ws[w['ws']]['runs'] if r['mode'] == 'twophase' and len(r['obs']) > 1), None)
+        if pr is not None:
+            body.append('Definition T_run := Eval vm_compute in failing (run_agrees W%d) 0 [{| rc_mode := TwoPhase; rc_parts := %s; rc_obs := %s |}].' % (
+                wi, clist(nlist(x) for x in pr['parts']), clist(c_viol(I, v) for v in pr['obs'][1:])))
+            selftest.append('T_run')
+            break
+    body.append(' '.join('Print %s.' % c[0] for c in checks) + ' ' + ' '.join('Print %s.' % t for t in selftest))
     v = ['From Regal Require Import Check.C09Check.', 'Open Scope N_scope.'] + I.defs + body
     rc, cout = vlib.coq_eval(ctx, 'Cases_C09', '\n'.join(v))
     if rc != 0:
@@ -172,6 +199,8 @@ def run(ctx):
         p = per_ws[wss[wi]['ws']]
         for i in vlib.parse_nat_list(cout, nm) or []:
             bad[tag].append((wss[wi], p[lst][i]))
+
+    selftest_blind = [t for t in selftest if vlib.parse_nat_list(cout, t) != [0]]
 
     # ---- verdicts -------------------------------------------------------------------------
     def files_of(w, ids):
@@ -249,6 +278,13 @@ def run(ctx):
                                               'files': [{'id': f['id'], 'name': f['name'], 'text': f['text']} for f in w['files']]},
                                      'n_mismatches': len(bad[tag])}, no_input=True)
                 break
+    if rules_out_of_date:
+        vlib.violation(ctx, {'kind': 'aggregate-rule-list', 'bundled': sorted(bundled), 'exercised': sorted(exercised),
+                             'what': 'the bundled rules defining aggregate_report differ from the rules this check exercises: '
+                                     + ', '.join(rules_out_of_date)}, no_input=True)
+    if selftest_blind:
+        vlib.violation(ctx, {'kind': 'glue-self-test', 'what': 'a perturbed observation was not flagged by ' + ', '.join(selftest_blind)},
+                       no_input=True)
     if unknown_entries and not ctx.violations:
         vlib.violation(ctx, {'kind': 'correspondence', 'relation': 'aggregate entries in the cache that no rule produced for any file',
                              'n': unknown_entries}, no_input=True)
@@ -272,11 +308,13 @@ def run(ctx):
         'rule': 'distinct = distinct (workspace, pipeline mode, ordered partition) runs + distinct collect runs + distinct cache '
                 'operation sequences + distinct language-server history steps; oracle rows (direct rule evaluations) not counted',
         'workspaces': [{'ws': w['ws'], 'files': len(w['files'])} for w in wss],
+        'bundled_aggregate_rules': sorted(bundled),
         'runs': len(runs), 'collect_runs': len(collects), 'oracle_rows': len(by['oracle']),
         'oracle_rows_checked_for_permutation_invariance': len([o for o in by['oracle'] if len(o['ids']) > 1]),
         'cache_steps': len(caches), 'lsp_steps': len(ov_by['lsp']),
         'violations_seen_by_rule': dict(rules_seen), 'histogram': dict(hist),
         'mismatches': {k: len(vv) for k, vv in bad.items()},
+        'glue_self_tests': selftest, 'glue_self_tests_blind': selftest_blind,
         'two_phase_vs_one_shot_failures': len(pred_bad), 'cache_vs_fresh_failures': len(inc_bad),
         'cache_steps_where_the_empty_marker_was_lost': len(marker_lost),
         'lsp_incremental_vs_fresh_failures': len(lsp_bad),
